@@ -56,6 +56,22 @@ Theorem C16_distributions_py_unfold_is_fibre : forall n config u, (2 <= n)%nat -
 Proof. exact gen_unfold_is_fibre. Qed.
 Print Assumptions C16_distributions_py_unfold_is_fibre.
 
+(* ---- the SOURCE of the iterator helpers of phasegen/utils.py through which the configurations of get_mutation_configs are consumed
+   (pinned on every run by translate/utils2coq.py into gen/UtilsGen.v): takewhile_inclusive yields a prefix of the configurations that is
+   either everything or ends with the FIRST item failing the predicate (that item included, nothing after it); take_n yields exactly the
+   first n items, or fails when there are fewer ---- *)
+From PG Require Import gen.UtilsGen proofs.GenUtilsEquiv.
+Theorem C16_utils_py_takewhile_inclusive :
+  forall (A : Type) (p : A -> bool) (l : list A),
+    (takewhile_inclusive p l = l /\ Forall (fun y => p y = true) (removelast l)) \/
+    exists pre x rest, takewhile_inclusive p l = pre ++ [x] /\ l = pre ++ x :: rest /\ p x = false /\ Forall (fun y => p y = true) pre.
+Proof. exact @gen_takewhile_inclusive_stop. Qed.
+Theorem C16_utils_py_take_n :
+  forall (A : Type) (n : nat) (l : list A), take_n l n = if Nat.leb n (length l) then Some (firstn n l) else None.
+Proof. exact @gen_take_n_spec. Qed.
+Print Assumptions C16_utils_py_takewhile_inclusive.
+Print Assumptions C16_utils_py_take_n.
+
 From mathcomp Require Import all_ssreflect all_algebra.
 Set Implicit Arguments. Unset Strict Implicit. Unset Printing Implicit Defensive.
 Import GRing.Theory.
